@@ -143,6 +143,7 @@ package nflog
 //@   after call errors.Is assume res0 == isEOF(arg0)
 //@   ensures [only-a-clean-end-of-input-completes-the-state] result1 == nil ==> called("protodelim.UnmarshalFrom") && isEOF(ret("protodelim.UnmarshalFrom"))
 //@   ensures [any-other-read-error-is-reported] called("protodelim.UnmarshalFrom") && ret("protodelim.UnmarshalFrom") != nil && !isEOF(ret("protodelim.UnmarshalFrom")) ==> result1 != nil
+//@   ensures [only-a-read-error-or-a-malformed-record-fails-the-decode] result1 != nil ==> result1 == ErrInvalidState || (called("protodelim.UnmarshalFrom") && result1 == ret("protodelim.UnmarshalFrom") && !isEOF(result1))
 //@   ensures [a-decoded-entry-is-filed] result1 == nil && countnil0("protodelim.UnmarshalFrom") > 0 ==> len(result0) > 0
 //@   loop 1 invariant countnil0("protodelim.UnmarshalFrom") >= 0 && (countnil0("protodelim.UnmarshalFrom") > 0 ==> len(st) > 0)
 //@   noeffect bufio.NewReader errors.Is
@@ -318,3 +319,33 @@ package nflog
 //@   at call state).MarshalBinary assert [state-of-this-store-under-lock] arg0 == l.st && count("Mutex).Lock") == 1 && count("Mutex).Unlock") == 0
 //@   ensures [full-state] result0 == ret("state).MarshalBinary") && result1 == ret1("state).MarshalBinary")
 //@   noeffect state).MarshalBinary
+
+// the floating-point kind of receiver data, like the other two kinds: what is set is what is read back under the key
+//@ spec dblAt(s *Store, key string) bool = key in s.data && typeis(s.data[key].Value, *pb.ReceiverDataValue_DoubleVal) && unbox(s.data[key].Value, *pb.ReceiverDataValue_DoubleVal) != nil
+//@ func (*Store).SetFloat
+//@   props C10
+//@   requires storeOK(s)
+//@   ensures [stored] dblAt(s, key) && unbox(s.data[key].Value, *pb.ReceiverDataValue_DoubleVal).DoubleVal == v
+//@   ensures [others] forall k string :: k != key ==> (k in s.data) == old(k in s.data) && s.data[k] == old(s.data[k])
+//@   ensures [ok] storeOK(s)
+//@   assigns s.data[*]
+//@ func (*Store).GetFloat
+//@   props C10
+//@   requires storeOK(s)
+//@   assumes forall k string :: k in s.data && typeis(s.data[k].Value, *pb.ReceiverDataValue_DoubleVal) ==> unbox(s.data[k].Value, *pb.ReceiverDataValue_DoubleVal) != nil
+//@   ensures [found-iff-a-float-is-stored] result1 == (key in s.data && typeis(s.data[key].Value, *pb.ReceiverDataValue_DoubleVal))
+//@   ensures [value] result1 ==> result0 == unbox(s.data[key].Value, *pb.ReceiverDataValue_DoubleVal).DoubleVal
+//@   assigns nothing
+
+// ---- C11 / C10: start-up of the notification log: configured retention; a missing snapshot file is a fresh start, any
+// other open error is reported; what was opened (or handed in as a reader) is loaded, a load error is returned.
+//@ func New
+//@   props C11 C10
+//@   nosafe
+//@   at call Log).loadSnapshot assert [loads-what-was-opened-or-given] count("Log).loadSnapshot") == 0 && arg0 != nil && fresh(arg0) && arg0.retention == o.Retention && arg0.st != nil && len(arg0.st) == 0
+//@             && (called("os.Open") && ret1("os.Open") == nil ? typeis(arg1, *os.File) && unbox(arg1, *os.File) == ret("os.Open") : arg1 == o.SnapshotReader)
+//@   ensures [a-missing-file-is-a-fresh-start-any-other-open-error-is-reported] called("os.Open") && ret1("os.Open") != nil && !ret("os.IsNotExist") ==> result0 == nil && result1 == ret1("os.Open")
+//@   ensures [a-load-error-is-reported] called("Log).loadSnapshot") && ret("Log).loadSnapshot") != nil ==> result1 == ret("Log).loadSnapshot")
+//@   ensures [an-opened-snapshot-is-loaded] called("os.Open") && ret1("os.Open") == nil ==> called("Log).loadSnapshot")
+//@   ensures [success-yields-a-log] result1 == nil ==> result0 != nil && result0.retention == o.Retention
+//@   noeffect Log).loadSnapshot Options).validate newMetrics
